@@ -27,13 +27,13 @@ type c07Caller struct {
 	err      error
 	subs     []mqtt.Subscription
 	// peer-side bookkeeping
-	id       uint16
-	seen     bool // request packet seen on the wire
-	acked    bool // final acknowledgement delivered by the peer
-	recd     bool // q2: PUBREC delivered
-	relSeen  bool // q2: PUBREL seen
-	early    bool // returned nil before its final acknowledgement was delivered
-	codes    []byte
+	id      uint16
+	seen    bool // request packet seen on the wire
+	acked   bool // final acknowledgement delivered by the peer
+	recd    bool // q2: PUBREC delivered
+	relSeen bool // q2: PUBREL seen
+	early   bool // returned nil before its final acknowledgement was delivered
+	codes   []byte
 }
 
 type c07Owed struct {
